@@ -79,7 +79,7 @@ func TestProp(t *testing.T) {
 		if only >= 0 {
 			onlyCfg = only / perConfig
 		}
-		vh.ForEach(nConfigs, 3, onlyCfg, func(ci int) { runConfig(rep, env, ci, perConfig, only) })
+		vh.ForEach(nConfigs, 1, onlyCfg, func(ci int) { runConfig(rep, env, ci, perConfig, only) })
 	}
 	onlyE, skipE := env.Only("c11-empty")
 	if !skipE && only < 0 {
